@@ -37,7 +37,7 @@ def downstream(prog, seeds):
     return out
 
 
-def add_chain(prog, rng):
+def add_chain(prog, rng, shapes=None):
     """a transitive-closure component over a long chain plus random edges: many iterations, so that a limit really truncates"""
     V, A = dl.Var, dl.Atom
     m = rng.randint(4, 14)
@@ -47,11 +47,19 @@ def add_chain(prog, rng):
     p = dl.Relation("lim_p", [("a0", dl.NUMBER), ("a1", dl.NUMBER)], is_output=True)
     prog.rels += [e, p]
     prog.clauses.append(dl.Clause([A("lim_p", [V("x"), V("y")])], [A("lim_e", [V("x"), V("y")])]))
-    shape = rng.choice(["linear", "nonlinear", "mutual"])
+    shape = rng.choice(shapes or ["linear", "nonlinear", "mutual"])
     if shape == "linear":
         prog.clauses.append(dl.Clause([A("lim_p", [V("x"), V("z")])], [A("lim_p", [V("x"), V("y")]), A("lim_e", [V("y"), V("z")])]))
     elif shape == "nonlinear":
         prog.clauses.append(dl.Clause([A("lim_p", [V("x"), V("z")])], [A("lim_p", [V("x"), V("y")]), A("lim_p", [V("y"), V("z")])]))
+    elif shape == "triple":
+        # three recursive atoms: delta versions 0, 1 and 2; combinations (new, old, new) occur in every iteration
+        prog.clauses.append(dl.Clause([A("lim_p", [V("x"), V("w")])], [A("lim_p", [V("x"), V("y")]), A("lim_p", [V("y"), V("z")]), A("lim_p", [V("z"), V("w")])]))
+    elif shape == "quad-mutual":
+        q = dl.Relation("lim_q", [("a0", dl.NUMBER), ("a1", dl.NUMBER)], is_output=True)
+        prog.rels.append(q)
+        prog.clauses.append(dl.Clause([A("lim_q", [V("x"), V("y")])], [A("lim_p", [V("x"), V("y")])]))
+        prog.clauses.append(dl.Clause([A("lim_p", [V("x"), V("v")])], [A("lim_q", [V("x"), V("y")]), A("lim_p", [V("y"), V("z")]), A("lim_e", [V("z"), V("w")]), A("lim_q", [V("w"), V("v")])]))
     else:
         q = dl.Relation("lim_q", [("a0", dl.NUMBER), ("a1", dl.NUMBER)], is_output=True)
         prog.rels.append(q)
